@@ -16,6 +16,7 @@ def run(ctx):
     rule_M8(ctx)      # the gaps cover the circle; the centre is opposite the largest one
     ctx.require(n >= 2, 'M6 evaluated only %d column stores (floor 2: forward and inverse)' % n)
     ctx.floor('M6', 5, 'closure obligations')
+    ctx.floor('M8', 4, 'gap obligations')
     ctx.assumptions += ['float a % 1 lies in [0,1) for a >= 0 and in [0,1] when a may be '
                         'negative (CPython/NumPy: -1e-18 % 1 == 1.0)',
                         'centers restored from a checkpoint satisfy the invariant of the writer']
